@@ -23,13 +23,13 @@ func init() {
 	register(&Rule{ID: "T-PREC", Props: []string{"C10", "C01"}, Floor: 7,
 		Doc: "Binding powers, obtained by interpreting the precedence function on every token constant (switch, table or map alike): | < || < && < comparisons < {+ -} < {* x / ÷ // %} < flatten < object wildcard < filter < dot < ! < {[ , [*]}; members of a level are equal; every other token has power 0.",
 		Run: ruleTPrec})
-	register(&Rule{ID: "T-INFIX", Props: []string{"C10", "C01", "C17", "C18", "C04", "C20", "C05"}, Floor: 28,
+	register(&Rule{ID: "T-INFIX", Props: []string{"C10", "C01", "C17", "C18", "C04", "C20", "C05", "C02", "C12", "C13", "C16", "C19"}, Floor: 28,
 		Doc: "One iteration of the operator loop for every token, by path enumeration: an operator is taken exactly when its power is strictly above the caller's (so equal powers associate to the left) or the caller forces the first selector; a binary operator consumes itself, parses its right operand at its own power and builds its own node from the untouched left and right operands; selectors call the projection parser with the powers of the specification and build the projection / prune / pipe nodes of the specification; the power compared on the next iteration is that of the then-current token; a token that is not an operator ends the expression returning the left operand unchanged.",
 		Run: ruleTInfix})
-	register(&Rule{ID: "T-PRIMARY", Props: []string{"C10", "C01", "C17", "C04", "C19", "C16", "C18", "C20"}, Floor: 25,
+	register(&Rule{ID: "T-PRIMARY", Props: []string{"C10", "C01", "C17", "C04", "C19", "C16", "C18", "C20", "C02", "C12", "C13"}, Floor: 25,
 		Doc: "Prefix position, by path enumeration of the primary-expression parser for every token: each token that can start an expression consumes exactly the tokens of its production and builds the node of the specification (unary operators parse their operand at the multiplicative / not power, wildcards, flatten and filter start projections that stop at the specified power, a parenthesised projection is closed, brackets choose index/slice on an integer or colon and a multi-select otherwise, an identifier followed by `(` is a function call); every other token is rejected.",
 		Run: ruleTPrimary})
-	register(&Rule{ID: "T-DELIMS", Props: []string{"C04", "C01", "C19", "C10"}, Floor: 9,
+	register(&Rule{ID: "T-DELIMS", Props: []string{"C04", "C01", "C19", "C10", "C02", "C12", "C13", "C16", "C17", "C18", "C20"}, Floor: 9,
 		Doc: "Bracketed constructs, by path enumeration of the filter, multi-select list, multi-select hash, let and top-level parsers: each accepts exactly `expr ]`, `expr {, expr} ]`, `key : expr {, key : expr} }`, `$v = expr {, $v = expr} in expr` and `expr <end>`; elements are parsed below every operator's power and stored in order under their keys.",
 		Run: ruleTDelims})
 }
@@ -103,7 +103,10 @@ type roles struct {
 
 // args builds the argument vector of a grammar function: receiver, then by type Node -> left, int -> prec, bool -> flag, string -> name.
 func (d *parserDom) argsFor(fn *ssa.Function, left AV, prec int64, flag bool) []AV {
-	args := []AV{avPtr{d.pobj, ""}}
+	var args []AV
+	if fn.Signature.Recv() != nil {
+		args = append(args, avPtr{d.pobj, ""})
+	}
 	sig := fn.Signature
 	for i := 0; i < sig.Params().Len(); i++ {
 		t := sig.Params().At(i).Type()
@@ -153,6 +156,7 @@ func (d *parserDom) inferRoles() *roles {
 			set(&rl.index, m, "INDEX")
 			continue
 		}
+		takesOnlyNode := sig.Params().Len() == 1 && isNodeType(sig.Params().At(0).Type())
 		hasNode, hasInt := false, false
 		for i := 0; i < sig.Params().Len(); i++ {
 			t := sig.Params().At(i).Type()
@@ -193,6 +197,8 @@ func (d *parserDom) inferRoles() *roles {
 			}
 		}
 		switch {
+		case takesOnlyNode && (built["IndexNode"] || built["IndexCurrentNode"] || built["SmallIndexCurrentNode"]):
+			set(&rl.index, m, "INDEX") // the bracket-specifier parser in the form that wraps slices in their projection itself
 		case built["DefineVariables"]:
 			set(&rl.let, m, "LET")
 		case built["SelectArrayNode"] || built["SelectArraySingleNode"]:
@@ -221,9 +227,17 @@ func (d *parserDom) inferRoles() *roles {
 		}
 	}
 	// the function-call parser is outside the default-opaque classification above (it inlines its helpers): find it as T-FUNC does
-	for _, c := range d.methodBySig(func(sig *types.Signature) bool {
+	topCands := d.methodBySig(func(sig *types.Signature) bool {
 		return sig.Params().Len() == 0 && sig.Results().Len() == 2 && isNodeType(sig.Results().At(0).Type()) && isErrorType(sig.Results().At(1).Type())
-	}) {
+	})
+	for _, f := range d.p.Funcs {
+		sig := f.Signature
+		if f.Pkg != nil && f.Pkg.Pkg == d.p.Parser.Types && f.Parent() == nil && sig.Recv() == nil && sig.Results().Len() == 2 &&
+			isNodeType(sig.Results().At(0).Type()) && isErrorType(sig.Results().At(1).Type()) {
+			topCands = append(topCands, f) // the package's entry function, when the top level lives there
+		}
+	}
+	for _, c := range topCands {
 		if rl.byFn[c] != "" || !d.scc[c] {
 			if !d.scc[c] && rl.top == nil {
 				// non-recursive () (Node, error) method that calls the expression entry: the top level
@@ -623,8 +637,24 @@ var primaryProductions = map[string][]string{
 	"VariableToken": {"Variable => VariableNode{Name:tok1.Value}"},
 }
 
-func expandProductions(lines []string, tok string, pw map[string]int64) map[string]bool {
+// selfWrappingIndex: the bracket-specifier parser returns (Node, error) and wraps slices itself; the callers' productions
+// for `[` then reduce to handing its result on.
+func expandProductions(lines []string, tok string, pw map[string]int64, selfWrappingIndex bool) map[string]bool {
 	out := map[string]bool{}
+	if selfWrappingIndex && tok == "OpenSqBraceToken" {
+		var alt []string
+		for _, l := range lines {
+			switch {
+			case strings.Contains(l, "| !$1.1 => $1"):
+				alt = append(alt, strings.Replace(l, " | !$1.1 => $1", " => $1", 1))
+			case strings.Contains(l, "$1.1"):
+				// the projection is built inside the bracket-specifier parser
+			default:
+				alt = append(alt, l)
+			}
+		}
+		lines = alt
+	}
 	for _, l := range lines {
 		l = strings.ReplaceAll(l, "{=}", fmt.Sprint(pw[tok]))
 		for {
@@ -688,9 +718,10 @@ func keysOfSet(m map[string]bool) []string {
 }
 
 type tpiCtx struct {
-	d  *parserDom
-	rl *roles
-	pw map[string]int64
+	d        *parserDom
+	rl       *roles
+	pw       map[string]int64
+	selfWrap bool // the bracket-specifier parser wraps slices in their projection itself
 }
 
 func tpiSetup(p *Program, r *Reporter) *tpiCtx {
@@ -709,7 +740,7 @@ func tpiSetup(p *Program, r *Reporter) *tpiCtx {
 		r.Unknown(token.NoPos, "grammar roles", rl.why)
 		return nil
 	}
-	return &tpiCtx{d, rl, pw}
+	return &tpiCtx{d, rl, pw, rl.index != nil && rl.index.Signature.Results().Len() == 2}
 }
 
 // ---------------------------------------------------------------- T-INFIX
@@ -738,7 +769,7 @@ func ruleTInfix(p *Program, r *Reporter) {
 		if n, ok := binaryNodes[tok]; ok {
 			want[fmt.Sprintf("%s E(%d) => %s{Left:$L,Right:$1}", short, power, n)] = true
 		} else if lines, ok := infixProductions[tok]; ok {
-			want = expandProductions(lines, tok, pw)
+			want = expandProductions(lines, tok, pw, c.selfWrap)
 		}
 		if len(want) > 0 && power <= 0 {
 			r.Bad(fn.Pos(), name+" "+short, "operator with binding power 0 can never be taken")
@@ -787,7 +818,7 @@ func ruleTInfix(p *Program, r *Reporter) {
 							result = val
 						case isIntType(ph.Type()):
 							if sy, ok := val.(avSym); ok && sy.tag == "prec" {
-								cur, _ := o.St.load(avPtr{d.pobj, ".curr.Type"})
+								cur, _ := o.St.load(avPtr{d.parserObj(o.St), "." + d.tokField[0] + "." + d.tokenElem[0]})
 								if avKey(sy.payload) != avKey(cur) {
 									stale = "after this operator the loop compares the power of " + avKey(sy.payload) + ", which is no longer the current token (" + avKey(cur) + ")"
 								}
@@ -878,7 +909,7 @@ func ruleTPrimary(p *Program, r *Reporter) {
 			rr := d.newRenderer(rl, o.St, nil, pw)
 			got[rr.line(items, o.Res[0], "")] = o.Ret.Pos()
 		}
-		compareLines(r, fn.Pos(), key, got, expandProductions(primaryProductions[tok], tok, pw), "the primary-expression parser")
+		compareLines(r, fn.Pos(), key, got, expandProductions(primaryProductions[tok], tok, pw, c.selfWrap), "the primary-expression parser")
 	}
 	// the expression entry: a primary expression continued by the operator loop at the caller's power, not forced
 	{
